@@ -128,6 +128,22 @@ def check_case(case) -> Outcome:
             out.add('lookup-by-id-absent', str(absent))
     if g.get_node_by_full_name('no such asset:no such step') is not None:
         out.add('lookup-by-name-absent', '')
+    # a second graph generated from the same language and model must not disturb the lookups of the first
+    if not out.discrepancies:
+        try:
+            from maltoolbox.attackgraph import AttackGraph
+            g2 = AttackGraph(lg, model)
+        except Exception as e:
+            out.add('second-generation-raises', f'{type(e).__name__}: {e}')
+            return out
+        for n in g.nodes:
+            if g.get_node_by_id(n.id) is not n or g.get_node_by_full_name(n.full_name) is not n:
+                out.add('lookup-disturbed-by-second-graph', n.full_name)
+                break
+        for n in g2.nodes:
+            if g2.get_node_by_id(n.id) is not n or g2.get_node_by_full_name(n.full_name) is not n:
+                out.add('lookup-of-second-graph', n.full_name)
+                break
     return out
 
 
